@@ -135,7 +135,23 @@ var connModel = porcupine.Model{
 }
 
 func runConnHistory(r *mon.Run, e *connEnv, rng *rand.Rand, readers, writers int) {
-	reg, err := vschema.Registry(e.fdL)
+	// extra local services registered by a third writer while the
+	// connection writers run: a RegisterConn that works on a stale clone
+	// would silently undo them (lost update)
+	hid := atomic.AddInt64(&histSeq, 1)
+	fx := &vschema.File{Path: fmt.Sprintf("vf/cxl%d.proto", hid), Pkg: fmt.Sprintf("vf.cxl%d", hid)}
+	const nExtra = 3
+	for i := 0; i < nExtra; i++ {
+		fx.Services = append(fx.Services, vschema.Service{Name: fmt.Sprintf("E%d", i), Methods: []vschema.Method{
+			{Name: "Get", In: "vf.Req", Out: "vf.Rsp", Rule: getRule(fmt.Sprintf("/cxl%d/e%d/{a}", hid, i))},
+		}})
+	}
+	fdX, err := fx.Build()
+	if err != nil {
+		r.Inconclusive("harness: " + err.Error())
+		return
+	}
+	reg, err := vschema.Registry(e.fdL, fdX)
 	if err != nil {
 		r.Inconclusive("harness: " + err.Error())
 		return
@@ -290,10 +306,47 @@ func runConnHistory(r *mon.Run, e *connEnv, rng *rand.Rand, readers, writers int
 			}
 		}(w)
 	}
+	// third writer: local registrations interleaved with the conn writers
+	var extraOK [nExtra]bool
+	ww.Add(1)
+	go func() {
+		defer ww.Done()
+		lr := rand.New(rand.NewSource(rng.Int63()))
+		for i := 0; i < nExtra; i++ {
+			time.Sleep(time.Duration(500+lr.Intn(4000)) * time.Microsecond)
+			sd := fdX.Services().Get(i)
+			var rerr error
+			pi := mon.Catch(func() {
+				rerr = larking.VerifRegisterService(mux, vschema.ServiceDesc(sd, taggedImpl{"local"}), struct{}{})
+			})
+			if pi != nil {
+				viol(pi.Key(), "RegisterService panicked during conn registration: "+pi.Value)
+				return
+			}
+			extraOK[i] = rerr == nil
+			smu.Lock()
+			script = append(script, fmt.Sprintf("wl:RegLocal(E%d)=%v", i, rerr))
+			smu.Unlock()
+			capture(fmt.Sprintf("RegLocal(E%d)", i))
+		}
+	}()
 	ww.Wait()
 	time.Sleep(2 * time.Millisecond)
 	atomic.StoreInt32(&stop, 1)
 	wg.Wait()
+
+	// no successful registration may be lost
+	for i := 0; i < nExtra; i++ {
+		if !extraOK[i] {
+			continue
+		}
+		resp := wire.Serve(mux, wire.BodyRequest("GET", fmt.Sprintf("/cxl%d/e%d/v", hid, i), "", nil, nil))
+		r.Count("local_registrations_checked_after_conn_ops", 1)
+		if resp.Code != http.StatusOK {
+			viol("registered-local-service-lost", fmt.Sprintf("local service E%d was registered successfully while RegisterConn/DropConn were running, but answers %d afterwards (lost update)", i, resp.Code))
+			break
+		}
+	}
 
 	for _, s := range snaps {
 		r.Count("snapshots_refingerprinted", 1)
